@@ -14,6 +14,7 @@ import (
 	"sort"
 
 	sdkmath "cosmossdk.io/math"
+	tmbytes "github.com/cometbft/cometbft/libs/bytes"
 	storetypes "cosmossdk.io/store/types"
 	sdk "github.com/cosmos/cosmos-sdk/types"
 	gogotypes "github.com/cosmos/gogoproto/types"
@@ -203,7 +204,7 @@ func (e *Env) Project(ctx sdk.Context) (ctxs chain.M, bind chain.M, earned chain
 		rc servicetypes.RequestContext
 	}
 	var items []item
-	k.IterateRequestContexts(ctx, func(id []byte, rc servicetypes.RequestContext) bool {
+	k.IterateRequestContexts(ctx, func(id tmbytes.HexBytes, rc servicetypes.RequestContext) bool {
 		items = append(items, item{append([]byte{}, id...), rc})
 		return false
 	})
@@ -303,7 +304,8 @@ func (e *Env) Balances(ctx sdk.Context, users []string) chain.M {
 	}
 	bal["svcreq"] = chain.M{Denom: small(c.Bal(ctx, chain.ModuleAddr(servicetypes.RequestAccName), Denom))}
 	bal["svcdep"] = chain.M{Denom: small(c.Bal(ctx, chain.ModuleAddr(servicetypes.DepositAccName), Denom))}
-	bal["feepool"] = chain.M{Denom: small(c.FeePool(ctx, Denom))}
+	// the application wires the service module's own collector account (tax, slashing)
+	bal["svctax"] = chain.M{Denom: small(c.Bal(ctx, chain.ModuleAddr(servicetypes.FeeCollectorName), Denom))}
 	return bal
 }
 
